@@ -4,6 +4,6 @@ CONSTANTS
   MaxShort = 10
   StepBits = 16
 SPECIFICATION Spec
-INVARIANT NoInterference
+INVARIANTS NoInterference Emit
 PROPERTY EventuallyAll
 CHECK_DEADLOCK FALSE
